@@ -845,6 +845,16 @@ def build_unit(unit: Unit, outdir, repo=None):
             except rl.LexError as ex:
                 raise ExtractError('%s: %s' % (f.name, ex))
         body, counts = process_body(body, f, log)
+        # ---- R20: module-level constants of the same file that the body mentions and nothing in the unit defines
+        for cname in sorted(set(re.findall(r'(?<![\w:.])([A-Z][A-Z0-9_]{2,})\b(?!\s*[:(!{])', rl.mask(body)))):
+            if cname in consts_done or re.search(r'\bconst %s\b' % cname, gen.text()) or any(re.search(r'\bconst %s\b' % cname, _read(os.path.join(VERIF, 'prelude', pf))) for pf in unit.prelude):
+                continue
+            cm = re.search(r'(?m)^[ \t]*(?:pub(?:\([a-z]+\))? )?const %s: ([\w:<>]+) = ([^;{}]+);' % cname, text)
+            if not cm:
+                continue
+            consts_done.add(cname)
+            hoisted.append('pub const %s: %s = %s;' % (cname, cm.group(1), ' '.join(cm.group(2).split())))
+            log.append(dict(rule='R20:const', part='body', count=1, matched=[cname], replaced_by='(module-level const copied)', why='constant of the same source file referenced by the body'))
         # ---- signature
         for r in GLOBAL_SIG_RULES + [x for x in unit.rules if x.where != 'body'] + [x for x in f.rules if x.where != 'body']:
             sig, n = _apply_rule(r, sig, log, 'sig')
@@ -946,6 +956,7 @@ def build_unit(unit: Unit, outdir, repo=None):
             fn_table.append(lentry)
 
     hoisted = []
+    consts_done = set()
     deferred_canaries = []
 
     def emit_parts(parts, impl_header=None, fx_type=None, trait_impl=False, qual=None):
